@@ -359,6 +359,13 @@ class SeriesOps:
             ser = next((x for x in pos if isinstance(x, Ser)), None)
             r = T.ite(M.as_ser_term(pos[0]), M.as_ser_term(pos[1]), M.as_ser_term(pos[2])) if len(pos) == 3 else T.opaque("np.where/1")
             return ser.with_term(r) if ser is not None else r
+        if name == "np.select" and len(pos) >= 2 and isinstance(pos[0], list) and isinstance(pos[1], list) and len(pos[0]) == len(pos[1]):
+            default = kw.get("default", pos[2] if len(pos) > 2 else 0)
+            ser = next((x for x in pos[0] + pos[1] if isinstance(x, Ser)), None)
+            r = M.as_ser_term(default)
+            for c, v in reversed(list(zip(pos[0], pos[1]))):     # the first true condition wins
+                r = T.ite(M.as_ser_term(c), M.as_ser_term(v), r)
+            return ser.with_term(r) if ser is not None else r
         if short in ("ceil", "floor", "trunc") and name.split(".")[0] in ("np", "math"):
             t = M.as_ser_term(a0)
             return a0.with_term((short, t)) if isinstance(a0, Ser) else (short, t)
